@@ -48,12 +48,13 @@ prop('C07', 'proof',
      'no 64-bit key collision within a game; clock < 65535; ' + TIE,
      'Lean 4 proof (bitboard attack tests = rules-level attacks, via the C11 table theorem) + differential correspondence', '§12.4 C07')
 prop('C15', 'proof',
-     'Lean theorems (Props/C15.lean), all over Spec.wf positions and rules-legal moves, no run-time side condition: move_is_capture = the rules\' capture and move_is_quiet = neither capture nor promotion '
-     '(C15_capture_quiet_full); GIVES-CHECK PROVED FOR EVERY LEGAL MOVE EXCEPT CASTLING (C15_gives_check_noncastle): ordinary moves, promotions and en-passant captures — move_gives_check = the rules\' '
-     'in-check test on the position after the move (direct/discovered decomposition over rays with lifted pieces; for en passant three squares change and the second discovered test is the slider test on '
-     'the real occupancy, containing the first by ray monotonicity). The former side conditions are theorems (Lemmas/LegalFacts.lean): promotions only to N/B/R/Q, no pseudo-legal move lands on the enemy king '
-     '(a move onto an enemy piece attacks its square), kings apart after a legal move. Castling gives-check stays on the differential of all three predicates against the rules-spec (which plays the move)',
-     WF + TIE, 'Lean 4 theorems (capture/quiet full, gives-check for all non-castling moves) + differential correspondence', '§12.4 C15')
+     'FULLY PROVED in Lean (Props/C15.lean), over Spec.wf positions and rules-legal moves, no run-time side condition: move_is_capture = the rules\' capture and move_is_quiet = neither capture nor promotion '
+     '(C15_capture_quiet_full); move_gives_check = the rules\' in-check test on the position after the move for EVERY legal move (C15_gives_check_full): ordinary moves and promotions '
+     '(direct/discovered decomposition over rays with lifted pieces), en-passant captures (three squares change; the second discovered test is the slider test on the real occupancy and contains the first by '
+     'ray monotonicity), castling (two steps of the same side, neither discovers a check: back-rank geometry as a kernel-evaluated table over enemy-king square x direction x square). The former side conditions '
+     'are theorems (Lemmas/LegalFacts.lean): promotions only to N/B/R/Q, no pseudo-legal move lands on the enemy king, kings apart after a legal move. The differential of all three predicates on every legal '
+     'move against the rules-spec (which plays the move) ties the model to the code',
+     WF + TIE, 'Lean 4 theorems (capture, quiet, gives-check: all legal moves) + differential correspondence', '§12.4 C15')
 prop('C16', 'proof',
      'Lean theorems: packed Move / MoveInfo encodings decode to their fields (exhaustive decide over all field values), uci/parse_uci round trip; '
      'differential on uci text, codes, parse round trips and FEN->Position->FEN/keys on every visited position',
